@@ -592,7 +592,7 @@ func (fr *frame) indexAddr(x *ssa.IndexAddr, st *State) *Val {
 	switch u := types.Unalias(x.X.Type()).Underlying().(type) {
 	case *types.Slice:
 		fr.safety("index", x, st, And(Le(IntLit(0), it), Lt(it, SlLen(base.T))))
-		return &Val{Loc: &Loc{Kind: LElem, Ref: SlArr(base.T), Idx: Add(SlOff(base.T), it), Key: fr.w.elemHeap(u.Elem()), Ty: u.Elem()}, Ty: x.Type()}
+		return &Val{Loc: &Loc{Kind: LElem, Ref: SlArr(base.T), Idx: Idx(SlOff(base.T), it), Key: fr.w.elemHeap(u.Elem()), Ty: u.Elem()}, Ty: x.Type()}
 	case *types.Pointer:
 		arr := types.Unalias(u.Elem()).Underlying().(*types.Array)
 		if base.T == nil {
@@ -618,7 +618,7 @@ func (fr *frame) lookup(x *ssa.Lookup, st *State) *Val {
 	case *types.Basic: // string index
 		it := fr.intIndex(fr.get(x.Index), x)
 		fr.safety("index", x, st, And(Le(IntLit(0), it), Lt(it, StrLen(base.T))))
-		return fr.named(x, &Val{T: App("bytes", BV(8), StrArr(base.T), Add(StrOff(base.T), it)), Ty: x.Type()})
+		return fr.named(x, &Val{T: App("bytes", BV(8), StrArr(base.T), Idx(StrOff(base.T), it)), Ty: x.Type()})
 	case *types.Map:
 		mv, mh := fr.w.mapHeaps(u)
 		k := fr.mapKey(fr.get(x.Index))
@@ -750,7 +750,7 @@ func (fr *frame) concat(a, b *Val, st *State, at ssa.Instruction) *Val {
 	}
 	res := MkStr(arr, IntLit(0), n)
 	i := Sym(freshBinder("i"), SInt)
-	by := func(s *Term, k *Term) *Term { return App("bytes", BV(8), StrArr(s), Add(StrOff(s), k)) }
+	by := func(s *Term, k *Term) *Term { return App("bytes", BV(8), StrArr(s), Idx(StrOff(s), k)) }
 	ra := App("bytes", BV(8), arr, i)
 	vc.assume(True, Forall([]Binder{{i.Op, SInt}}, And(
 		Implies(And(Le(IntLit(0), i), Lt(i, la)), Eq(ra, by(a.T, i))),
@@ -780,7 +780,7 @@ func (fr *frame) convert(x *ssa.Convert, st *State) *Val {
 		i := Sym(freshBinder("i"), SInt)
 		rb := App("bytes", BV(8), arr, i)
 		fr.vc.assume(True, Forall([]Binder{{i.Op, SInt}}, Implies(And(Le(IntLit(0), i), Lt(i, SlLen(v.T))),
-			Eq(rb, Select(Select(st.heap.get(key), SlArr(v.T)), Add(SlOff(v.T), i)))), []*Term{rb}))
+			Eq(rb, Select(Select(st.heap.get(key), SlArr(v.T)), Idx(SlOff(v.T), i)))), []*Term{rb}))
 		return &Val{T: res, Ty: to}
 	case fs == SStr && ts == SSlice:
 		el := types.Unalias(to).Underlying().(*types.Slice).Elem()
@@ -792,7 +792,7 @@ func (fr *frame) convert(x *ssa.Convert, st *State) *Val {
 		na := fr.vc.fresh(fr.prefix+"bytes", ArrSort(SInt, BV(8)))
 		i := Sym(freshBinder("i"), SInt)
 		fr.vc.assume(True, Forall([]Binder{{i.Op, SInt}}, Implies(And(Le(IntLit(0), i), Lt(i, StrLen(v.T))),
-			Eq(Select(na, i), App("bytes", BV(8), StrArr(v.T), Add(StrOff(v.T), i)))), []*Term{Select(na, i)}))
+			Eq(Select(na, i), App("bytes", BV(8), StrArr(v.T), Idx(StrOff(v.T), i)))), []*Term{Select(na, i)}))
 		st.heap = st.heap.set(key, Store(st.heap.get(key), a, na))
 		return &Val{T: MkSlice(a, IntLit(0), StrLen(v.T), StrLen(v.T)), Ty: to}
 	case ts == SStr && (fs.BVWidth() > 0 || fs == SInt):
@@ -945,7 +945,7 @@ func (fr *frame) rangeNext(x *ssa.Next, st *State) *Val {
 	pos := st.heap.get(it.key)
 	vc.assume(st.reach, And(Le(IntLit(0), pos), Le(pos, StrLen(s))))
 	ok := vc.define(fr.sym(x)+"!ok", Lt(pos, StrLen(s)))
-	b := App("bytes", BV(8), StrArr(s), Add(StrOff(s), pos))
+	b := App("bytes", BV(8), StrArr(s), Idx(StrOff(s), pos))
 	r := vc.fresh(fr.sym(x)+"!rune", BV(32))
 	wdt := vc.fresh(fr.sym(x)+"!w", SInt)
 	ascii := App("bvult", SBool, b, BVLitU(0x80, 8))
